@@ -12,8 +12,8 @@ Headline: `diff_exact` — for two canonical indexes (by C08 `step_refines_canon
 by any history is canonical) with the same parameters, injective digests (`DigOk`), the width
 hypothesis (`TopOk`, F-ldiff-width) on both sides, and counts below 2^32 on the wire: whenever the
 round loop ends, every one of the four lists contains exactly the specified ids, each once — for
-both variants, in process and through the wire adapters. Termination is the separate statement
-`C07_diff_terminates_full` (stated; see notes).
+both variants, in process and through the wire adapters; `diff_terminates`: it ends within its 80
+rounds; `diff_total_exact` assembles both.
 -/
 namespace AnySync.Ldiff
 
@@ -101,15 +101,44 @@ theorem diff_exact_go {D} [DecidableEq D] (A : DigAlg D) (p : Params) (hf : Nat 
   diff_exact A goSplit p hf a b greater wire hA hwa hwb (topOk_go p a hdf hM hna) (topOk_go p b hdf hM hnb)
     hsmall c hd
 
-/-- **Full statement of termination** (not proved): under the same hypotheses the loop ends
-within its 80 rounds. Proof plan in `notes/areas/ldiff.md` (the remote node of a pending range found
-from the top has a depth budget that decreases with every subdivision). -/
-def C07_diff_terminates_full : Prop :=
-  ∀ (D : Type) [DecidableEq D] (A : DigAlg D) (S : Splitter) (p : Params) (hf : Nat → Nat)
-    (a b : List Elem) (greater wire : Bool),
-    DigOk A → SlWf hf a → SlWf hf b → TopOk S p a → TopOk S p b →
-    (wire = true → b.length < 4294967296) →
-    ∃ c, diff A S greater wire (canon A S p a) (canon A S p b) = some c
+/-- **diff_terminates.** Under the width hypothesis the round loop ends within its 80 rounds: a
+pending range whose remote subtree has depth budget `g` has level `g + 2`, an element request
+level 1, the top range level `depthFuel + 3 = 73`; every round lowers all levels by one. -/
+theorem diff_terminates {D} [DecidableEq D] (A : DigAlg D) (S : Splitter) (p : Params) (hf : Nat → Nat)
+    (a b : List Elem) (greater wire : Bool)
+    (hA : DigOk A) (hwa : SlWf hf a) (hwb : SlWf hf b) (hoka : TopOk S p a) (hokb : TopOk S p b)
+    (hsmall : wire = true → b.length < 4294967296) :
+    ∃ c, diff A S greater wire (canon A S p a) (canon A S p b) = some c := by
+  unfold diff
+  apply rounds_terminate A S p hf a b greater wire hA hwa hwb hoka hokb hsmall (depthFuel + 3) 80
+  · intro r hr
+    rw [List.mem_singleton.mp hr]
+    exact Or.inr (Or.inr ⟨rfl, Nat.le_refl _⟩)
+  · decide
+
+/-- **C07, assembled**: the diff terminates and reports exactly the specified ids, each once. -/
+theorem diff_total_exact {D} [DecidableEq D] (A : DigAlg D) (S : Splitter) (p : Params) (hf : Nat → Nat)
+    (a b : List Elem) (greater wire : Bool)
+    (hA : DigOk A) (hwa : SlWf hf a) (hwb : SlWf hf b) (hoka : TopOk S p a) (hokb : TopOk S p b)
+    (hsmall : wire = true → b.length < 4294967296) :
+    ∃ c, diff A S greater wire (canon A S p a) (canon A S p b) = some c ∧
+      ∀ k, (c.get k).Nodup ∧ ∀ id, id ∈ c.get k ↔ id ∈ specK greater k (pairs a) (pairs b) := by
+  obtain ⟨c, hc⟩ := diff_terminates A S p hf a b greater wire hA hwa hwb hoka hokb hsmall
+  exact ⟨c, hc, diff_exact A S p hf a b greater wire hA hwa hwb hoka hokb hsmall c hc⟩
+
+/-- the same for the Go arithmetic, with the concrete width hypothesis `NoNarrow` -/
+theorem diff_total_exact_go {D} [DecidableEq D] (A : DigAlg D) (p : Params) (hf : Nat → Nat)
+    (a b : List Elem) (greater wire : Bool) (hdf : 2 ≤ p.df) (hM : p.df ≤ M)
+    (hA : DigOk A) (hwa : SlWf hf a) (hwb : SlWf hf b)
+    (hna : ∀ i, i < p.df →
+      NoNarrow p a depthFuel (childRange 0 (M - 1) p.df i).1 (childRange 0 (M - 1) p.df i).2)
+    (hnb : ∀ i, i < p.df →
+      NoNarrow p b depthFuel (childRange 0 (M - 1) p.df i).1 (childRange 0 (M - 1) p.df i).2)
+    (hsmall : wire = true → b.length < 4294967296) :
+    ∃ c, diff A goSplit greater wire (canon A goSplit p a) (canon A goSplit p b) = some c ∧
+      ∀ k, (c.get k).Nodup ∧ ∀ id, id ∈ c.get k ↔ id ∈ specK greater k (pairs a) (pairs b) :=
+  diff_total_exact A goSplit p hf a b greater wire hA hwa hwb
+    (topOk_go p a hdf hM hna) (topOk_go p b hdf hM hnb) hsmall
 
 /-- `compareElementsEqual` / `compareElementsGreater` append exactly the specified ids (re-exported) -/
 theorem compareElements_exact (g : Bool) (c : DCtx) (my other : List (Nat × Nat)) (k : Kind) :
